@@ -25,7 +25,7 @@ from ..obs.tree import MARK_RE
 PROP = 'C12'
 LEVEL = 'exploration'
 RULE = ('generated documents whose text leaves (running text, section titles, captions, footnotes, list items, description terms, table cells, '
-        'theorem titles, boxes) are wrapped with probability 0.5 in one of 17 adversarial forms; verbatim and \\verb material with raw markup '
+        'theorem titles, boxes) are wrapped with probability 0.5 in one of 18 adversarial forms; verbatim and \\verb material with raw markup '
         'characters; x {HTML5 default, HTML5 minimal, XHTML default} x escape-high-chars on/off x output-encoding utf-8/ascii/latin-1.  Each case '
         'renders the document twice (adversarial / bare markers).  Non-trivial = >= 3 adversarial leaves; distinct by (document, settings).')
 ASSUMPTIONS = ["'parsing the output as HTML' = Python's html.parser with convert_charrefs (HTML5 tokenizer rules), not every browser quirk",
